@@ -350,6 +350,13 @@ def run(ctx):
             for c, o in list(zip(cases, outs)):
                 if o.startswith("ok "):
                     cases.append({"op": "dec", "ap": c["ap"], "bytes": bytes.fromhex(o[3:]), "emitted": True})
+    # the size limits themselves: NOTIFICATIONs and UPDATEs whose total length sits at 4096 / 65535 / 65536 (where a 16-bit sum wraps) and beyond
+    for ext in (False, True):
+        for total in (4095, 4096, 4097, 65534, 65535, 65536, 65537, 65555, 70000, 131072 + 30):
+            cases.append({"op": "enc", "ext": ext, "ap": False, "msg": ("notification", 6, 2, [(i * 7) & 255 for i in range(total - 21)])})
+        for a, b in ((30000, 30000), (32745, 32745), (32746, 32746), (32747, 32746), (40000, 40000), (65535, 65535)):
+            # 23 octets of header and lengths + two attributes with extended length (4 + value each)
+            cases.append({"op": "enc", "ext": ext, "ap": False, "msg": ("update", [], [("unknown", 192, 200, [1] * a), ("unknown", 192, 201, [2] * b)], [])})
     cases.append({"op": "rich"})
     cases += fnlri_cases(rng, ctx.scale(1500, 60000))
     cases += mp_cases(rng, ctx.scale(700, 30000))
